@@ -22,6 +22,9 @@ def main():
             meta = json.load(open(os.path.join(d, "meta.json")))
             if only and only not in meta["id"]:
                 continue
+            if meta.get("superseded"):
+                print("%-45s %-4s SUPERSEDED (%s)" % (meta["id"], meta["property"], meta["superseded"][:110]))
+                continue
             r = sh("git -C %s apply %s" % (wt, os.path.join(d, "patch.diff")))
             if r.returncode:
                 print("%-45s %-4s STALE (patch does not apply: %s)" % (meta["id"], meta["property"], r.stdout.strip()[:80])); bad += 1
